@@ -426,7 +426,7 @@ def b_ord(c):
 @builtin("getattr")
 def b_getattr(c):
     x, n = c.args[0], c.args[1]
-    if is_const(n) and isinstance(n[2], str) and n[2].isidentifier() and isinstance(x, tuple) and x and x[0] in ("nt", "obj", "enum") and len(x) == 3 and len(c.args) < 3:
+    if is_const(n) and isinstance(n[2], str) and n[2].isidentifier() and isinstance(x, tuple) and x and ((x[0] in ("nt", "obj", "enum") and len(x) == 3) or (x[0] == "global" and len(x) == 2 and x[1].startswith(("ext:", "module:", "class:")))) and len(c.args) < 3:
         # getattr(record, "field") with a constant name: the attribute access itself
         import ast as _ast
 
